@@ -149,6 +149,9 @@ class FnRecord:
     src_file: str = ''
     src_line: int = 0
     rules: list = field(default_factory=list)
+    lost: str = ''                                   # non-empty: spliced as external_body (anchors lost)
+    lost_hints: list = field(default_factory=list)   # proof hints that could not be placed
+    lost_sites: list = field(default_factory=list)   # labelled site assertions that could not be placed
 
 @dataclass
 class GenResult:
@@ -407,7 +410,22 @@ class Extractor:
 
     # ---- one function
     def process_fn(self, toks, item, module, container, fnspec, in_trait_impl=False, pub_container=False):
-        """returns generated text for the fn item"""
+        """full splice; if a rewrite pattern / loop anchor of the spec no longer matches the source (the function
+        was edited), fall back to an external_body version that keeps only the signature-level contract and is
+        flagged `lost` (every property that relies on this function becomes UNDECIDED, the others are unaffected)"""
+        snap_clauses = dict(self.clauses); snap_rules = dict(self.rules_used); snap_fns = len(self.fns)
+        try:
+            return self._process_fn(toks, item, module, container, fnspec, in_trait_impl, 'full')
+        except (ExtractError, RsxError) as e:
+            if not fnspec: raise
+            self.clauses = snap_clauses; self.rules_used = snap_rules; del self.fns[snap_fns:]
+            fs = {k: v for k, v in fnspec.items() if k in ('path', 'ret', 'requires', 'ensures', 'attrs')}
+            fs['external_body'] = True
+            text, rec = self._process_fn(toks, item, module, container, fs, in_trait_impl, 'external')
+            rec.lost = str(e)
+            return text, rec
+
+    def _process_fn(self, toks, item, module, container, fnspec, in_trait_impl, mode):
         name = item.name
         path = (container + '::' + name) if container else name
         rec = FnRecord(module, path)
@@ -558,14 +576,22 @@ class Extractor:
                         a += 1
                     add(a, '\n' + ls['after'] + '\n')
             for at in sp.get('at', []):
-                self.place_at(ftoks, fitem, at, add, path)
+                try:
+                    self.place_at(ftoks, fitem, at, add, path)
+                except ExtractError as e:
+                    # a proof hint whose anchor statement was edited: verify without it; a failure in this
+                    # function is then UNDECIDED (it may only be the missing hint), never a violation
+                    rec.lost_hints.append(str(e))
             for asr in sp.get('assert', []):
                 c = Clause(asr['label'], list(asr.get('own', [])), list(asr.get('dep', [])), asr['text'])
                 self.register_clause(c, path, 'site assertion', module)
                 rec.labels.append(c.label)
                 at = dict(anchor=asr['anchor'], where=asr.get('where', 'before'), nth=asr.get('nth'),
                           text='proof { assert(%s); /*#%s*/ }' % (asr['text'].strip(), asr['label']))
-                self.place_at(ftoks, fitem, at, add, path)
+                try:
+                    self.place_at(ftoks, fitem, at, add, path)
+                except ExtractError as e:
+                    rec.lost_hints.append(str(e)); rec.lost_sites.append(c.label)
         elif sp.get('entry') or loop_specs or sp.get('at'):
             raise ExtractError('%s: body annotations on a fn without body' % path)
         # render
